@@ -19,7 +19,9 @@ of the source (a hoisted constant, a precompiled `struct.Struct`, an extra local
      where x was.  Repeated to a fixed point;
   4. `for v in list(E)` / `tuple(E)` -> `for v in E`;
   5. inside a loop body `if C: continue` followed by REST -> `if not C: REST` (comparison operators are flipped instead of
-     wrapped in `not`).
+     wrapped in `not`);
+  6. `if not C: A else: B` -> `if C: B else: A` (so the order of the branches, and with it the order of the format sites, does
+     not depend on how the test is phrased).
 
 Soundness of 3: E is evaluated later than before, after assignments that are pure and do not bind a name E reads, and after
 the sub-expressions of S that precede the use; an S that changes what E reads before it reaches x (`f(buf.pop(), n)`) would be
@@ -33,7 +35,8 @@ import copy
 STRUCT_METHODS = {'pack', 'unpack', 'unpack_from', 'iter_unpack', 'pack_into'}
 PURE_FUNCS = {'len', 'round', 'int', 'float', 'str', 'bytes', 'bytearray', 'list', 'tuple', 'min', 'max', 'abs', 'bool', 'chr', 'ord', 'repr',
               'math.ceil', 'math.floor', 'ceil', 'floor', 'escape_text', 'itertools.chain', 'chain', 'zip', 'enumerate', 'range', 'sorted',
-              'reversed', 'struct.calcsize', 'struct.pack', 'struct.unpack', 'struct.unpack_from', 'memoryview', 'divmod', 'sum', 'set', 'frozenset'}
+              'reversed', 'struct.calcsize', 'struct.pack', 'struct.unpack', 'struct.unpack_from', 'memoryview', 'divmod', 'sum', 'set', 'frozenset',
+              'runlength_encode', 'runlength_decode', 'identity'}
 PURE_METHODS = {'encode', 'decode', 'casefold', 'lower', 'upper', 'find', 'rfind', 'index', 'count', 'items', 'keys', 'values', 'get', 'tell',
                 'getvalue', 'exp_out', 'exp_in', 'copy', 'startswith', 'endswith', 'rstrip', 'strip', 'lstrip', 'format', 'join', 'split',
                 'bit_length', 'to_bytes'}
@@ -302,6 +305,11 @@ def function(fn: ast.FunctionDef, tree: ast.Module, consts: bool = True, aliases
                         n.body[i:] = [new]
                         changed = True
                         break
+    # 6. `if not C: A else: B` -> `if C: B else: A`
+    for n in ast.walk(fn):
+        if isinstance(n, ast.If) and n.orelse and isinstance(n.test, ast.UnaryOp) and isinstance(n.test.op, ast.Not) \
+                and not (len(n.orelse) == 1 and isinstance(n.orelse[0], ast.If)):
+            n.test, n.body, n.orelse = n.test.operand, n.orelse, n.body
     return ast.fix_missing_locations(fn)
 
 
